@@ -48,7 +48,21 @@ impl Drop for QItem {
 }
 static mut SOFT: Vec<(String, String)> = Vec::new();
 
+/// Predicates 0-4 are pure functions of the element. 5 and 6 have a memory (a caller may pass
+/// any `Fn`): they can hold only at their first evaluation within one call (5: always then, 6:
+/// for even sequence numbers), so whatever the queue does after an evaluation that said "yes"
+/// must not depend on asking again.
+pub fn impure(id: u64) -> bool {
+    id >= 5
+}
+
 pub fn pred(id: u64, v: u64) -> bool {
+    if id == 5 {
+        return true;
+    }
+    if id == 6 {
+        return v % 2 == 0;
+    }
     match id % 5 {
         0 => true,
         1 => false,
@@ -109,7 +123,7 @@ pub fn gen(prop: &str, seed: u64) -> RunDesc {
                     k += 1;
                 }
                 1..=4 => ops.push(op(K::QPop, 0, 0, 0, 0)),
-                _ => ops.push(op(K::QPopIf, rng.below(5) as u32, 0, 0, 0)),
+                _ => ops.push(op(K::QPopIf, rng.below(7) as u32, 0, 0, 0)),
             }
         }
         if hold {
@@ -175,7 +189,7 @@ fn body(tid: usize, q: &'static VQueue<QItem>, prog: &ThreadProg) {
                         let n = std::cell::Cell::new(0u32);
                         ev.out = q.try_pop_if(
                             |v| {
-                                let r = pred(id, v.0);
+                                let r = pred(id, v.0) && !(impure(id) && n.get() > 0);
                                 last.set(Some((v.0, r)));
                                 n.set(n.get() + 1);
                                 r
@@ -206,6 +220,17 @@ fn apply(q: &VecDeque<u64>, e: &QEv) -> Option<VecDeque<u64>> {
         K::QPop => match (q.front(), e.out) {
             (None, None) => Some(q.clone()),
             (Some(&f), Some(x)) if f == x => {
+                let mut n = q.clone();
+                n.pop_front();
+                Some(n)
+            }
+            _ => None,
+        },
+        _ if impure(e.arg) => match (q.front(), e.out) {
+            // judged by what the predicate actually answered last in this call
+            (None, None) => Some(q.clone()),
+            (Some(&f), None) if e.last_pred == Some((f, false)) => Some(q.clone()),
+            (Some(&f), Some(x)) if f == x && e.last_pred == Some((x, true)) => {
                 let mut n = q.clone();
                 n.pop_front();
                 Some(n)
@@ -331,7 +356,7 @@ pub fn run(desc: &RunDesc) -> ! {
                     Some((v, true)) if v == x => {}
                     other => soft("pop_if-predicate-not-on-popped-element", format!("{}: last predicate evaluation was {:?}", fmt(e), other)),
                 }
-                if !pred(e.arg, x) {
+                if !impure(e.arg) && !pred(e.arg, x) {
                     soft("pop_if-removed-failing-element", format!("{} although the predicate is false for it", fmt(e)));
                 }
             }
